@@ -18,6 +18,9 @@ CHECKS = {
  'C03': dict(level='proof', design='3.C03',
    technique='static dataflow normalisation of optimised LLVM IR: comparison predicate + mask encoding terms',
    text="Per (comparison, element type, configuration): every output mask lane (vector mask: all-ones/zero lanes; AVX512: k-register bit i) is the exact icmp/fcmp predicate of lane i's operands (ordered predicates for floats, une for !=), including the SSE2 64-bit and AVX512F 8/16-bit emulations (decided through reviewed identities: Hacker's Delight 2-12, eq-merge, Morton-table projection analysis of the constant LUT)."),
+ 'C05': dict(level='exploration', design='3.C05',
+   technique='static byte-provenance analysis of optimised LLVM IR per instantiation (constant-mask specialisation); exploration over the instantiation space',
+   text="swizzle/shuffle with compile-time masks, zip_lo/hi, slide_left/right (every byte count), rotate_left/right (every lane count), extract_pair (every index), insert (every position), compress/expand (every mask value up to 8 lanes, structured+random above), for every element type on 21 configurations: each instantiation is compiled and its result register is read as a concatenation of untouched input slices; the obligation is that every output lane is exactly the input lane (or zero fill) the definition names -- decided for ALL lane values. The space of index patterns is explored, not exhausted: all n^n masks for n<=4, structured families (identity/reverse/rotations/broadcasts/half swaps/in-lane vs cross-lane/one-lane-from-the-other-half/zip/extract windows) plus VERIF_SEED-driven random masks for wider batches (quick 24-48, thorough 600-1500 per type and configuration). Run-time-index swizzle and transpose are not claimed here."),
  'C07': dict(level='proof', design='3.C07',
    technique='static dataflow normalisation of optimised LLVM IR; shift/rotate counts specialised exhaustively (0..bits-1)',
    text="Bitwise ops are bitwise terms; every (type, count) pair of <<, >>, bitwise_lshift/rshift, rotl, rotr is its own wrapper with a literal count, so the synthesised 8-bit and 64-bit-arithmetic shifts are decided for EVERY count (shifts by a constant are pure re-slicing of the lane's bits in the normal form); per-lane counts are decided against shl/lshr/ashr terms."),
